@@ -54,7 +54,8 @@ def oracle(hist, res):
         # 3. superset
         if not ex_a <= announced:
             bad.append(("superset", f"the build after the dry run executed {sorted(ex_a - announced)} which the dry run did not announce "
-                                    f"(dry outcomes {engine.outcomes(d)}, build outcomes {engine.outcomes(a)})", None))
+                                    f"(dry outcomes {engine.outcomes(d)}, build outcomes {engine.outcomes(a)})",
+                        classify_f20(tw["spec"], cfg, ex_a - announced, engine.outcomes(d))))
         # 4. non-interference
         if ex_a != ex_b:
             bad.append(("noninterf", f"after a dry run the build executed {sorted(ex_a)}, without the dry run {sorted(ex_b)} "
@@ -62,9 +63,27 @@ def oracle(hist, res):
     return bad
 
 
+def classify_f20(spec, cfg, offending, dry_outcomes):
+    """Known finding F20 (narrow): the builds are forced, and EVERY executed-but-unannounced task carries the persist
+    marker and was reported PERSISTENCE by the dry run. Anything else is a fresh violation."""
+    marks = {t["id"]: t.get("marks", []) for t in spec["tasks"]}
+    if cfg.get("force") and offending and all("persist" in marks.get(t, []) and dry_outcomes.get(t) == "PERSISTENCE" for t in offending):
+        return "F20"
+    return None
+
+
 # ------------------------------------------------------------------------------------------------
 # inputs
 # ------------------------------------------------------------------------------------------------
+
+def f20_witness():
+    """b -> (101) -> t, t marked persist; build; overwrite 101 by hand; forced dry run says PERSISTENCE for t, the forced
+    build re-creates 101 (equal to the recorded state again) and then executes t."""
+    spec = {"tasks": [{"id": 0, "module": 0, "deps": [100], "prods": [101], "after": [], "marks": [], "beh": "ok", "style": "default"},
+                      {"id": 1, "module": 0, "deps": [101], "prods": [102], "after": [], "marks": ["persist"], "beh": "ok", "style": "default"}],
+            "versions": {"0": 0}, "inputs": {"100": 5}}
+    return {"tag": "corpus-F20", "spec": spec, "steps": [["build", {}], ["write", 101, 777]], "twin": {"force": True}}
+
 
 def f19_witness(force=True):
     spec = {"tasks": [{"id": 0, "module": 0, "deps": [100], "prods": [101], "after": [], "marks": ["persist"], "beh": "ok", "style": "default"}],
@@ -73,7 +92,7 @@ def f19_witness(force=True):
 
 
 def corpus():
-    hs = [f19_witness(True), f19_witness(False)]
+    hs = [f19_witness(True), f19_witness(False), f20_witness()]
     # persist task in the middle of a chain, changed module, downstream consumer
     chain = {"tasks": [
         {"id": 0, "module": 0, "deps": [100], "prods": [101], "after": [], "marks": [], "beh": "ok", "style": "default"},
@@ -218,6 +237,8 @@ def run(ctx):
                 "middle task of a chain × 10 previous states × 4 configurations) first; non-trivial = the dry run announced ≥1 task and the following real "
                 "build executed ≥1 task; distinct by canonical (spec, prefix steps, twin configuration)")
     campaign(ctx, histories(ctx))
+    # self-test of the oracle: the F20 witness (corpus) must still be flagged — or have been repaired
+    ctx.extra["f20_witness_detected"] = "F20" in {v["finding"] for v in ctx.violations}
 
 
 def replay(ctx, obj):
